@@ -357,7 +357,7 @@ func (x *execState) noise(op Op) {
 			// on the kept (already validated) document when it was valid - it is
 			// validated again later - else on a document of its own
 			d := x.docs[[2]int{op.S, op.D}]
-			if d == nil || len(validator.Validate(x.schemas[op.S], d)) > 0 || r.Chance(1, 2) {
+			if d == nil || r.Chance(1, 2) || (op.Noise == "vars" && len(validator.Validate(x.schemas[op.S], d)) > 0) {
 				var errs gqlerror.List
 				d, errs = validateSource(x.schemas[op.S], &ast.Source{Input: s.Docs[op.D]})
 				if d == nil || len(errs) > 0 {
@@ -370,8 +370,14 @@ func (x *execState) noise(op Op) {
 					validator.VariableValues(x.schemas[op.S], o, vars)
 				}
 			} else {
+				// (argument maps are resolved wherever the walker linked a
+				// definition, also in documents that did not validate; a subset of
+				// the fields, as an executor resolves one of several merged fields)
 				var b strings.Builder
-				gen.RenderArgMaps(&b, d, vars)
+				gen.RenderArgMapsSome(&b, d, vars, r)
+				if os.Getenv("VERIF_TRACE") != "" {
+					fmt.Fprintf(os.Stderr, "noise argmaps kept=%v: %s\n", d == x.docs[[2]int{op.S, op.D}], b.String())
+				}
 			}
 		case "rules":
 			d, err := parser.ParseQuery(&ast.Source{Input: s.Docs[op.D]})
@@ -617,7 +623,7 @@ func genSession(seed uint64, source string) *Session {
 				continue
 			}
 			op.D = r.Intn(nd)
-			if k == "again" && r.Chance(2, 3) {
+			if (k == "again" || (k == "noise" && (op.Noise == "argmaps" || op.Noise == "vars" || op.Noise == "fmt-doc" || op.Noise == "json"))) && r.Chance(2, 3) {
 				// prefer a pair that has been validated before
 				var prev []Op
 				for _, p := range s.Ops {
